@@ -327,3 +327,27 @@ package journal
 // pipeline can be applied to two directives in either order with the same verdict and the same state.
 //@ commute valuate_postings_commute [C05]: Valuate$2 given p1 != p2
 //@ commute close_accumulate_commute [C05]: CloseAccounts$2
+//
+// Print: days in journal order; within a day the kinds in the fixed order prices, openings,
+// transactions, assertions, closings; within a kind every directive exactly once in list order -
+// nothing is dropped, duplicated or reordered beyond what Builder.Add and Sort already fixed.
+// (The text of a directive is produced by the trusted printer; the pipeline call Sort + padding is the
+// trusted Journal.Process.)
+//@ func Print
+//@   requires j != nil
+//@   modifies *
+//@   callback PrintDirectiveLn=0
+//@   ghost printed int = 0
+//@   loop 1 ghost-end printed := printed + len(day.Prices) + len(day.Openings) + len(day.Transactions) + len(day.Assertions) + len(day.Closings)
+//@   ensures [C05] @count: result == nil ==> tlen() == old(tlen()) + printed
+//@   loop 1 invariant 0 <= $i && $i <= len($range) && tlen() == old(tlen()) + printed && $range == j.Days && transcodable(j)
+//@   loop 2 invariant [C05] @prices: 0 <= $i && $i <= len($range) && $range == day.Prices && day != nil && tlen() == entry(tlen()) + $i
+//@        && (forall k int :: {$range[k]} 0 <= k && k < $i ==> dyn(targ("PrintDirectiveLn", 0, entry(tlen()) + k), "*price.Price") == $range[k])
+//@   loop 3 invariant [C05] @openings: 0 <= $i && $i <= len($range) && $range == day.Openings && day != nil && tlen() == entry(tlen()) + $i
+//@        && (forall k int :: {$range[k]} 0 <= k && k < $i ==> dyn(targ("PrintDirectiveLn", 0, entry(tlen()) + k), "*open.Open") == $range[k])
+//@   loop 4 invariant [C05] @transactions: 0 <= $i && $i <= len($range) && $range == day.Transactions && day != nil && tlen() == entry(tlen()) + $i
+//@        && (forall k int :: {$range[k]} 0 <= k && k < $i ==> dyn(targ("PrintDirectiveLn", 0, entry(tlen()) + k), "*transaction.Transaction") == $range[k])
+//@   loop 5 invariant [C05] @assertions: 0 <= $i && $i <= len($range) && $range == day.Assertions && day != nil && tlen() == entry(tlen()) + $i
+//@        && (forall k int :: {$range[k]} 0 <= k && k < $i ==> dyn(targ("PrintDirectiveLn", 0, entry(tlen()) + k), "*assertion.Assertion") == $range[k])
+//@   loop 6 invariant [C05] @closings: 0 <= $i && $i <= len($range) && $range == day.Closings && day != nil && tlen() == entry(tlen()) + $i
+//@        && (forall k int :: {$range[k]} 0 <= k && k < $i ==> dyn(targ("PrintDirectiveLn", 0, entry(tlen()) + k), "*close.Close") == $range[k])
